@@ -880,7 +880,8 @@ macro_rules! encode_properties_len {
             .iter()
             .map(|property| 4 + property.name.len() + property.value.len())
             .sum::<usize>();
-        $len += property_len + crate::var_int_len(property_len).expect("total properties length exceed 268,435,455");
+        // An oversize property section is refused by `total_len()` when the packet is encoded.
+        $len += property_len + crate::var_int_len(property_len).unwrap_or(5);
     };
     ($properties:expr, $len:expr, $($t:ident,)+) => {
         // Every properties have user property
@@ -893,7 +894,8 @@ macro_rules! encode_properties_len {
             crate::v5::encode_property_len!($t, $properties, property_len);
         )+
 
-            $len += property_len + crate::var_int_len(property_len).expect("total properties length exceed 268,435,455");
+            // An oversize property section is refused by `total_len()` when the packet is encoded.
+        $len += property_len + crate::var_int_len(property_len).unwrap_or(5);
     };
 }
 
